@@ -13,7 +13,7 @@ theorem createCertificate_eq (E : Env) (s : St) (e : Nat) :
       | some c => { s with certs := s.certs ++ [c],
                            oms := updOm e (fun o => { o with certified := true }) s.oms,
                            ses := addSignedEntity s.ses e s.certs.length,
-                           rt := match s.rt with | .signing ep _ => .ready ep | r => r }
+                           rt := readyOf s.rt }
       | none => s := by
   unfold createCertificate newCert
   repeat' split
@@ -269,7 +269,7 @@ structure SInv (E : Env) (s : St) : Prop where
   idleLt : ∀ l, s.rt = .idle (some l) → l < s.seen
   ready : ∀ ep, s.rt = .ready ep → ep = s.seen ∧ s.es = some ep
   signing : ∀ ep e, s.rt = .signing ep e → ep = s.seen ∧ s.es = some ep ∧ E.entityEpoch e = ep
-  avk : ∀ c ∈ s.certs, c.entity.isSome = true → c.avk = c.epoch
+  avk : ∀ c ∈ s.certs, c.avk = c.epoch
   esRound : ∀ ep, s.es = some ep → ep ≤ s.seen ∧ s.round = some (ep + 1)
 
 theorem createCertificate_eq_cut (E : Env) (s : St) (e : Nat) :
@@ -542,5 +542,196 @@ theorem readyStepCut_sinv {E : Env} {s : St} (tp : Tp) (p : CrashPoint) (h : SIn
     rw [homs] at kR
     rw [← hte] at kR
     exact kR
+
+/-- signing tick (with or without a cut in `create_certificate` / the artifact task) -/
+theorem signingStepCut_sinv {E : Env} {s : St} (tp : Tp) (p : CrashPoint) (h : SInv E s) {ep e : Nat}
+    (hrt : s.rt = .signing ep e) (hseen : s.seen ≤ tp.epoch) :
+    SInv E { signingStepCut E s tp ep e p with seen := tp.epoch } := by
+  obtain ⟨hep1, hes, hee⟩ := h.signing ep e hrt
+  have homE : ∀ o ∈ markExpired tp.now e s.oms, o.epoch = E.entityEpoch o.entity :=
+    omE_updOm (E := E) e (markExpired_mono tp.now) h.omE
+  -- states without a new certificate
+  have key0 : ∀ (r : Rt), (∀ l, r = .idle (some l) → l < tp.epoch) →
+      (∀ ep', r = .ready ep' → ep' = tp.epoch ∧ s.es = some ep') →
+      (∀ ep' e', r = .signing ep' e' → ep' = tp.epoch ∧ s.es = some ep' ∧ E.entityEpoch e' = ep') →
+      SInv E { s with oms := markExpired tp.now e s.oms, rt := r, seen := tp.epoch } := by
+    intro r h1 h2 h3
+    refine ⟨h.ct, homE, ?_, h1, h2, h3, h.avk, ?_⟩
+    · intro c hc; exact Nat.le_trans (h.certLe c hc) hseen
+    · intro ep' he'
+      obtain ⟨a, b⟩ := h.esRound ep' he'
+      exact ⟨Nat.le_trans a hseen, b⟩
+  unfold signingStepCut
+  dsimp only
+  split
+  · rename_i hlt
+    exact key0 _ (by intro l hl; simp only [Rt.idle.injEq, Option.some.injEq] at hl; omega)
+      (by intro ep' he; cases he) (by intro ep' e' he; cases he)
+  · rename_i hnlt
+    have hte : tp.epoch = ep := by omega
+    have kSame := key0 s.rt (by intro l hl; rw [hrt] at hl; cases hl) (by intro ep' he; rw [hrt] at he; cases he)
+      (by intro ep' e' he; rw [hrt] at he; simp only [Rt.signing.injEq] at he; obtain ⟨rfl, rfl⟩ := he
+          exact ⟨hte.symm, hes, hee⟩)
+    have kReady := key0 (.ready ep) (by intro l hl; cases hl)
+      (by intro ep' he; simp only [Rt.ready.injEq] at he; subst he; exact ⟨hte.symm, hes⟩)
+      (by intro ep' e' he; cases he)
+    split
+    · exact kReady
+    · split
+      · -- a certificate is built
+        rename_i c hc
+        obtain ⟨o, m, ho, _, _, hm, _, hceq⟩ := newCert_spec hc
+        obtain ⟨hom, hoe⟩ := findOm_some ho
+        have hoep : o.epoch = ep := by
+          have := homE o hom
+          rw [this, hoe]; exact hee
+        have hle : ∀ c' ∈ s.certs, c'.epoch ≤ o.epoch := by
+          intro c' hc'; rw [hoep, hep1]; exact h.certLe c' hc'
+        have hct : CT (s.certs ++ [c]) := by
+          rw [hceq]; exact CT_append h.ct hm hle e _ _
+        have hcav : c.avk = c.epoch ∧ c.epoch = tp.epoch := by
+          rw [hceq]; simp [hes, hoep, hte]
+        -- any combination of the later writes
+        have key1 : ∀ (oms'' : List OM) (r : Rt) (ses'' : List (Nat × Nat)),
+            (∀ o ∈ oms'', o.epoch = E.entityEpoch o.entity) → (r = s.rt ∨ r = .ready ep) →
+            SInv E { s with certs := s.certs ++ [c], oms := oms'', rt := r, ses := ses'', seen := tp.epoch } := by
+          intro oms'' r ses'' ho'' hr
+          refine ⟨hct, ho'', ?_, ?_, ?_, ?_, ?_, ?_⟩
+          · intro c' hc'
+            rcases List.mem_append.mp hc' with hc' | hc'
+            · exact Nat.le_trans (h.certLe c' hc') hseen
+            · simp only [List.mem_singleton] at hc'; subst hc'; exact Nat.le_of_eq hcav.2
+          · intro l hl
+            rcases hr with rfl | rfl
+            · rw [hrt] at hl; cases hl
+            · cases hl
+          · intro ep' he
+            rcases hr with rfl | rfl
+            · rw [hrt] at he; cases he
+            · simp only [Rt.ready.injEq] at he; subst he; exact ⟨hte.symm, hes⟩
+          · intro ep' e' he
+            rcases hr with rfl | rfl
+            · rw [hrt] at he; simp only [Rt.signing.injEq] at he; obtain ⟨rfl, rfl⟩ := he
+              exact ⟨hte.symm, hes, hee⟩
+            · cases he
+          · intro c' hc'
+            rcases List.mem_append.mp hc' with hc' | hc'
+            · exact h.avk c' hc'
+            · simp only [List.mem_singleton] at hc'; subst hc'; exact hcav.1
+          · intro ep' he'
+            obtain ⟨a, b⟩ := h.esRound ep' he'
+            exact ⟨Nat.le_trans a hseen, b⟩
+        have hcert : ∀ o ∈ updOm e (fun o => { o with certified := true }) (markExpired tp.now e s.oms),
+            o.epoch = E.entityEpoch o.entity := omE_updOm (E := E) e certify_mono homE
+        have hready : readyOf s.rt = .ready ep := by rw [hrt]; rfl
+        unfold createCertificateCut
+        cases p <;> dsimp only
+        · exact kSame
+        · exact key1 _ s.rt s.ses homE (Or.inl rfl)
+        · exact key1 _ s.rt s.ses hcert (Or.inl rfl)
+        · rw [hready]; exact key1 _ _ s.ses hcert (Or.inr rfl)
+        · rw [hready]; exact key1 _ _ s.ses hcert (Or.inr rfl)
+        · rw [hready]; exact key1 _ _ _ hcert (Or.inr rfl)
+        · rw [hready]; exact key1 _ _ _ hcert (Or.inr rfl)
+        · rw [hready]; exact key1 _ _ _ hcert (Or.inr rfl)
+        · rw [hready]; exact key1 _ _ _ hcert (Or.inr rfl)
+      · exact kSame
+
+/-- **every tick, complete or cut at any crash point, keeps the state invariant** -/
+theorem crashTick_sinv {E : Env} {s : St} (tp : Tp) (p : CrashPoint) (h : SInv E s) (hw : Wf E s tp) :
+    SInv E { crashTick E s tp p with seen := tp.epoch } := by
+  obtain ⟨hseen, hav⟩ := hw
+  unfold crashTick
+  split
+  · rename_i last hrt
+    exact idleStep_sinv tp last h hrt hseen
+  · rename_i since why hrt
+    have keyB : ∀ (r : Rt), (∀ l, r = .idle (some l) → l < tp.epoch) → (∀ ep, r ≠ .ready ep) → (∀ ep e, r ≠ .signing ep e) →
+        SInv E { s with rt := r, seen := tp.epoch } := by
+      intro r h1 h2 h3
+      refine ⟨h.ct, h.omE, ?_, h1, ?_, ?_, h.avk, ?_⟩
+      · intro c hc; exact Nat.le_trans (h.certLe c hc) hseen
+      · intro ep he; exact absurd he (h2 ep)
+      · intro ep e he; exact absurd he (h3 ep e)
+      · intro ep' he'
+        obtain ⟨a, b⟩ := h.esRound ep' he'
+        exact ⟨Nat.le_trans a hseen, b⟩
+    split
+    · rename_i hlt
+      exact keyB _ (by intro l hl; simp only [Rt.idle.injEq, Option.some.injEq] at hl; omega)
+        (by intro ep he; cases he) (by intro ep e he; cases he)
+    · have := keyB s.rt (by intro l hl; rw [hrt] at hl; cases hl) (by intro ep he; rw [hrt] at he; cases he)
+        (by intro ep e he; rw [hrt] at he; cases he)
+      exact this
+  · rename_i ep hrt
+    split
+    · rename_i hlt
+      refine ⟨h.ct, h.omE, ?_, ?_, ?_, ?_, h.avk, ?_⟩
+      · intro c hc; exact Nat.le_trans (h.certLe c hc) hseen
+      · intro l hl; simp only [Rt.idle.injEq, Option.some.injEq] at hl; show l < tp.epoch; omega
+      · intro ep' he; cases he
+      · intro ep' e' he; cases he
+      · intro ep' he'
+        obtain ⟨a, b⟩ := h.esRound ep' he'
+        exact ⟨Nat.le_trans a hseen, b⟩
+    · rename_i hnlt
+      exact readyStepCut_sinv tp p h hrt hnlt hseen hav
+  · rename_i ep e hrt
+    exact signingStepCut_sinv tp p h hrt hseen
+
+/-- events with their well-formedness condition (runs WITH crashes) -/
+def EvWfC (E : Env) (s : St) : Event → Prop
+  | .tick tp => Wf E s tp
+  | .crash tp _ => Wf E s tp
+  | _ => True
+
+theorem step_sinv {E : Env} {s : St} (ev : Event) (h : SInv E s) (hw : EvWfC E s ev) : SInv E (step E s ev) := by
+  cases ev with
+  | tick tp =>
+    show SInv E { tick E s tp with seen := tp.epoch }
+    rw [tick_eq_crashTick]
+    exact crashTick_sinv tp _ h hw
+  | crash tp p => exact crashTick_sinv tp p h hw
+  | signature e g =>
+    show SInv E (registerSig E s e g)
+    unfold registerSig
+    split
+    · exact sinv_frame h rfl rfl rfl rfl rfl rfl
+    · exact sinv_frame h rfl rfl rfl rfl rfl rfl
+    · exact h
+  | register k p =>
+    show SInv E (register s k p)
+    unfold register
+    split
+    · exact sinv_frame h rfl rfl rfl rfl rfl rfl
+    · exact h
+  | expire e =>
+    refine ⟨h.ct, omE_updOm (E := E) e expire_mono h.omE, h.certLe, h.idleLt, h.ready, h.signing, h.avk, h.esRound⟩
+  | restart =>
+    refine ⟨h.ct, h.omE, h.certLe, ?_, ?_, ?_, h.avk, ?_⟩
+    · intro l hl; cases hl
+    · intro ep he; cases he
+    · intro ep e he; cases he
+    · intro ep he; cases he
+
+def RunWfC (E : Env) : St → List Event → Prop
+  | _, [] => True
+  | s, ev :: r => EvWfC E s ev ∧ RunWfC E (step E s ev) r
+
+theorem run_sinv (E : Env) : ∀ (evs : List Event) (s : St), SInv E s → RunWfC E s evs → SInv E (evs.foldl (step E) s) := by
+  intro evs
+  induction evs with
+  | nil => intro s h _; exact h
+  | cons ev r ih => intro s h hw; exact ih _ (step_sinv ev h hw.1) hw.2
+
+theorem sinv_init (E : Env) (n g : Nat) : SInv E (init n g) := by
+  refine ⟨CT_init g, ?_, ?_, ?_, ?_, ?_, ?_, ?_⟩
+  · intro o ho; simp [init] at ho
+  · intro c hc; simp [init] at hc; subst hc; simp [init]
+  · intro l hl; simp [init] at hl
+  · intro ep he; simp [init] at he
+  · intro ep e he; simp [init] at he
+  · intro c hc; simp [init] at hc; subst hc; rfl
+  · intro ep he; simp [init] at he
 
 end Agg
